@@ -15,6 +15,8 @@ def classify(e):
         return "C17|snapshot", "send_client_stats-style snapshot does not push exactly the tracked entries / leaves the recorder non-empty"
     if ev == "merge":
         return "C17|merge", "reporter merge does not preserve per-address sums of the popped snapshots"
+    if ev == "report_file":
+        return "C17|report_file", "the statistics file written by Reporter::report() does not hold the merged per-address sums"
     if ev == "panic":
         return "C17|panic", "recorder panicked"
     return "C17|invariant|%s" % ev, "an invariant of Stats.tla (Conservation/Bounded/UntrackedZero/MergePreserves) is false after this event"
